@@ -240,6 +240,7 @@ class Run:
         e = dict(os.environ)
         if env:
             e.update({k: str(v) for k, v in env.items()})
+        timeout = max(5, int(timeout * float(os.environ.get("VERIF_TIMEOUT_SCALE", "1"))))
         r = None
         for attempt, tmo in enumerate((timeout, 2 * timeout)):
             try:
